@@ -339,6 +339,21 @@ def sweep_streamed_bits(R, ctx):
     ctx.nontrivial("streamed-bits", "regions", 4)
 
 
+def sweep_zero_width(R, ctx):
+    """wrappers around inner constructs of zero width (and of less than one byte): they take nothing from the stream, so a
+    following member sees every byte"""
+    B = ["name", "Byte"]
+    zero = [["ByteSwapped", ["Bytes", 0]], ["Bitwise", ["Array", 0, ["name", "Bit"]]], ["BitStruct", []], ["Bitwise", ["Struct", []]], ["Bitwise", ["Padding", 0]], ["Bytes", 0], ["Array", 0, B],
+            ["Padding", 0], ["BitsSwapped", ["Bytes", 0]], ["ByteSwapped", ["Struct", []]]]
+    for i, z in enumerate(zero):
+        if not ctx.mine(i):
+            continue
+        for r in (["Struct", [["z", z], ["t", ["name", "Int16ub"]]]], ["Sequence", [[None, B], [None, z], [None, ["name", "GreedyBytes"]]]], ["Struct", [["a", ["Prefixed", B, ["Struct", [["z", z], ["r", ["name", "GreedyBytes"]]]], False]], ["t", B]]]):
+            for data in (b"", b"\x01", b"\x01\x02", b"\x02\x03\x04\x05", b"\x03abc\x09", b"\xff" * 6):
+                R.parse(r, data, {}, "zero-width")
+        ctx.nontrivial("zero-width", z)
+
+
 def sweep_negative_lengths(R, ctx, rng):
     recs = [
         ["Prefixed", ["name", "Int8sb"], ["name", "GreedyBytes"], False], ["Prefixed", ["name", "Int8sb"], ["name", "GreedyBytes"], True],
@@ -444,7 +459,9 @@ def composites(R, ctx, rng):
     for i in range(n):
         g = Gen(rng, maxdepth=rng.choice([1, 2, 2, 3]), fragment="core")
         try:
-            r = g.recipe()
+            # the first composites of every worker: references to the outermost scope from three levels down; regions delimited
+            # from their end; tunnels; then the typed grammar
+            r = [g.root_family, g.region_family][i % 2]() if i < ctx.pick(16, 80) else g.recipe()
             kw = dict(g.kw)
             mk(r)
         except Exception as e:
@@ -509,6 +526,7 @@ def run(ctx):
     sweep_strip(R, ctx)
     sweep_terminated(R, ctx)
     sweep_streamed_bits(R, ctx)
+    sweep_zero_width(R, ctx)
     sweep_negative_lengths(R, ctx, rng)
     sweep_bits(R, ctx, rng)
     if ctx.mine(3):
